@@ -17,14 +17,18 @@ func init() {
 			return &Opaque{Tag: tag, Data: args}
 		}
 	}
-	register("reflect.TypeOf", func(m *Machine, fr *frame, fn *ssa.Function, args []Value) Value {
+	// reflect.TypeOf(x): a reflect.Type interface value that is nil exactly when
+	// x is the nil interface; otherwise an opaque handle carrying x's dynamic type
+	// (identity comparison and == nil are the only supported uses).
+	typeOf := func(m *Machine, fr *frame, fn *ssa.Function, args []Value) Value {
 		iv, _ := args[0].(Iface)
-		return &Opaque{Tag: "reflect.Type", Data: iv.T}
-	})
-	register("internal/reflectlite.TypeOf", func(m *Machine, fr *frame, fn *ssa.Function, args []Value) Value {
-		iv, _ := args[0].(Iface)
-		return &Opaque{Tag: "reflect.Type", Data: iv.T}
-	})
+		if iv.T == nil {
+			return Iface{}
+		}
+		return Iface{T: reflectTypeCarrier, V: m.typeHandle(iv.T)}
+	}
+	register("reflect.TypeOf", typeOf)
+	register("internal/reflectlite.TypeOf", typeOf)
 	register("regexp.MustCompile", opaque("*regexp.Regexp"))
 	register("time.Date", opaque("time.Time"))
 	register("time.Unix", opaque("time.Time"))
@@ -122,4 +126,22 @@ func init() {
 	})
 	register("(*runtime/trace.Region).End", nop)
 	register("runtime/trace.IsEnabled", func(m *Machine, fr *frame, fn *ssa.Function, args []Value) Value { return m.F.False })
+}
+
+// reflectTypeCarrier is the (fictitious) dynamic type of non-nil reflect.Type values.
+var reflectTypeCarrier = types.NewPointer(types.NewNamed(types.NewTypeName(token.NoPos, nil, "reflect.rtype", nil), types.NewStruct(nil, nil), nil))
+
+// typeHandle returns one opaque handle per distinct type, so that
+// reflect.TypeOf(a) == reflect.TypeOf(b) is pointer identity.
+func (m *Machine) typeHandle(t types.Type) *Opaque {
+	if m.typeHandles == nil {
+		m.typeHandles = map[string]*Opaque{}
+	}
+	k := types.TypeString(t, nil)
+	if o, ok := m.typeHandles[k]; ok {
+		return o
+	}
+	o := &Opaque{Tag: "reflect.Type", Data: t}
+	m.typeHandles[k] = o
+	return o
 }
